@@ -2,7 +2,7 @@
 from core import Case
 from props.cardutil import digits, rb
 
-OBLIGATIONS = []
+OBLIGATIONS = ["Psec.Props.C04.iso0_roundtrip", "Psec.Props.C04.iso2_roundtrip", "Psec.Props.C04.iso3_roundtrip", "Psec.Props.C04.iso4_field_roundtrip", "Psec.Props.C04.iso4_encipher_roundtrip"]
 TRUSTED_BASE = ["Lean 4.33 kernel", "hypothesis Ciphers.Lawful for the format-4 encipherment", "CPython's SystemRandom.choice algorithm as modelled (rejection sampling of urandom(1)[0] >> 5)",
                 "correspondence harness (os.urandom / random._urandom interposed before psec is imported) and compiled driver"]
 RULE = ("PIN lengths 4..12 x PAN lengths 13..24 (formats 0/3) and 1..19 (format 4) x AES key sizes x several draws of the random fill, every encoder run with "
